@@ -202,7 +202,7 @@ impl Tree {
             Tree::RN(f, t) => {
                 let i = t.build(dir, names);
                 names.push("RadixN::new".into());
-                rustfft::verif_hooks::radixn_new(f, i)
+                Arc::new(rustfft::verif_hooks::radixn_new(f, i))
             }
             Tree::MR(a, b) => {
                 let (x, y) = (a.build(dir, names), b.build(dir, names));
